@@ -11,6 +11,7 @@ string contents, exactness of every span in the parsed trees.  Oracle: the law i
 plain text), independent of the code.
 """
 import ast
+import re
 import json
 import warnings
 
@@ -29,6 +30,7 @@ PROBES = [
     ('probe:space-in-operand-of-glued-comparison', 'Q(x) :- P(x), x*2>= 2;', 'Q(x) :- P(x), x* 2>= 2;'),
     ('probe:minus-glued-to-call', 'Q(y) :- P(x), y == x - F(1);', 'Q(y) :- P(x), y == x-F(1);'),
     ('probe:minus-glued-to-parenthesis', 'Q(y) :- P(x), y == x - (1);', 'Q(y) :- P(x), y == x-(1);'),
+    ('probe:identifier-ending-in-_then', 'Q(y) :- y == (if a_then||b then 3 else 4);', 'Q(y) :- y == (if a_then || b then 3 else 4);'),
     ('probe:comment-between-tokens', 'Q(x) :- P(x), R(x);', 'Q(x) /* ( " */ :- P(x), # ;\n R(x);'),
     ('probe:trailing-semicolon', 'Q(x) :- P(x)', 'Q(x) :- P(x);'),
     ('probe:redundant-parens', 'Q(x) :- P(x), x > 1;', 'Q(x) :- ((P(x))), (x > (1));'),
@@ -391,6 +393,11 @@ def run(tier, replay=None):
         k = c['key']
         if k.startswith('layout:adjacent-to-keyword') and 'rejected' not in why:
           k = 'layout:%s' % common.short_hash(text_of[c['var']])
+        # an identifier that ends / begins with a keyword after / before an underscore (a_then, else_b) is cut at the
+        # keyword as soon as white space follows it: one class, whatever layout change exposed it
+        mk = re.search(r'split by \S*?(then|else)', why)
+        if mk and 'rejected' in why and re.search(r'\w_%s\b|\b%s_\w' % (mk.group(1), mk.group(1)), text_of[c['base']]):
+          k = 'layout:keyword-inside-identifier'
         per_key.setdefault(k, []).append((m, c, why))
   for k, lst in sorted(per_key.items()):
     m, c, why = min(lst, key=lambda x: len(text_of[x[1]['var']]))
